@@ -273,7 +273,8 @@ static void verifPoint(int id, const void* obj)
 		e->a = (long)mtAtomicCmpSwap((size_t*)obj, 0, 0);      /* value before the publication */
 		break;
 	case VP_ONCE_PUB_AFTER:
-		if (t->call != C_CREATE || obj != (const void*)t->once || !t->nev || t->ev[t->nev - 1].kind != E_PUB) return;
+		/* passed by every caller after the loop: only the publisher has an open Pub event */
+		if (t->call != C_CREATE || obj != (const void*)t->once || !t->nev || t->ev[t->nev - 1].kind != E_PUB || t->ev[t->nev - 1].seq != 0) return;
 		e = &t->ev[t->nev - 1];
 		e->b = (long)mtAtomicCmpSwap((size_t*)obj, 0, 0);
 		e->seq = stampAtomic();
@@ -506,13 +507,9 @@ static void runReplayChild(vx_cmd* c)
 	}
 	mtVerifPoint = verifPoint, g_hooks_installed = 1, g_stamp_atomic = 1;
 	g_n = n;
-	{
-		vs_thread* vt[MAXT];
-		(void)vt;
-		vs_on = 1;
-		sem_init(&vs_arrived, 0, 0);
-		for (i = 0; i < n; ++i) sem_init(&g_t[i].vs.go, 0, 0), g_t[i].vs.at = Y_NONE;
-	}
+	vs_on = 1;
+	sem_init(&vs_arrived, 0, 0);
+	for (i = 0; i < n; ++i) sem_init(&g_t[i].vs.go, 0, 0), g_t[i].vs.at = Y_NONE;
 	for (i = 0; i < n; ++i) pthread_create(&g_t[i].th, 0, worker, &g_t[i]);
 	for (i = 0; i < n; ++i) if (!vsAwait(timeout)) replayFail(id, -1, 0, "start-timeout", 0, 0);
 	for (i = 0; i < nsteps; ++i)
